@@ -20,7 +20,7 @@ CONFORMANCE = ("fakefs", "random")
 FUNCS = CROP_FUNCS
 
 
-def body_partition(E, api, n, mode, b, shuf, farmer, cv, j1, j2, j3, j4, j5):
+def body_partition(E, api, n, mode, b, shuf, farmer, cv, j1, j2, j3, j4, j5, resow=False):
     api = concretize(api, 0, 2)        # 0 grid, 1 case tuples, 2 cases x sub-grid
     n = concretize(n, 1, 10)
     mode = concretize(mode, 0, 2)
@@ -73,6 +73,15 @@ def body_partition(E, api, n, mode, b, shuf, farmer, cv, j1, j2, j3, j4, j5):
         else:
             crop.sow_combos({"b": [20, 21]}, cases=[{"a": 10 + i} for i in range(n)],
                             constants=consts, shuffle=shuffle, verbosity=0)
+        if cbool(resow):
+            # "you can safely resow": a second sow of the same crop, by the same object or by one re-created
+            # with the same constructor arguments, leaves the same partition
+            if api == 0:
+                crop.sow_combos(grid(n), constants=consts, shuffle=shuffle, verbosity=0)
+            crop = cp.Crop(fn=fn, name="t", parent_dir=env.parent, **kw) if not farmer else \
+                cp.Crop(farmer=runner, name="t", parent_dir=env.parent, **kw)
+            if api == 0:
+                crop.sow_combos(grid(n), constants=consts, shuffle=shuffle, verbosity=0)
         # ---- the files
         B = n_batches_expected(N, mode, b)
         bdir = crop_dir(env) + "/batches"
@@ -118,6 +127,13 @@ def body_partition(E, api, n, mode, b, shuf, farmer, cv, j1, j2, j3, j4, j5):
         rep2 = (crop2.batchsize, crop2.num_batches, crop2.num_sown_batches, crop2._batch_remainder)
         if rep != rep2 or rep[1] != B or rep[2] != B:
             return False
+        # ... also when re-created with the constructor call of the sowing script (what a separate grow / reap
+        # script typically does): what is on disk wins
+        crop3 = cp.Crop(fn=fn, name="t", parent_dir=env.parent, **kw) if not farmer else \
+            cp.Crop(farmer=runner, name="t", parent_dir=env.parent, **kw)
+        rep3 = (crop3.batchsize, crop3.num_batches, crop3.num_sown_batches, crop3._batch_remainder)
+        if rep3 != rep or crop3.missing_results() != tuple(range(1, B + 1)):
+            return False
         if mode == 1 and rep[0] != b:
             return False
         if mode == 2 and not (rep[0] == N // B and rep[3] == N % B):
@@ -142,28 +158,32 @@ def body_invalid(E, mode, b):
 
 BODIES = {}
 _G = globals()
-_SIG = "n:int mode:int b:int shuf:int farmer:int cv:int j1:int j2:int j3:int j4:int j5:int"
+_SIG = "n:int mode:int b:int shuf:int farmer:int cv:int j1:int j2:int j3:int j4:int j5:int resow:bool"
 _J = "0 <= j1 <= 1 and 0 <= j2 <= 2 and 0 <= j3 <= 3 and 0 <= j4 <= 4 and 0 <= j5 <= 5"
 
 CONDS = (
     split_conds(_G, "partition", body_partition, _SIG,
                 ["1 <= n <= 6 and 0 <= mode <= 2 and 1 <= b <= n + 2 and shuf == 0 and 0 <= farmer <= 1",
-                 "j1 == 0 and j2 == 0 and j3 == 0 and j4 == 0 and j5 == 0"], "api", [0, 1],
+                 "j1 == 0 and j2 == 0 and j3 == 0 and j4 == 0 and j5 == 0", "not resow or (API == 0 and farmer == 0)"],
+                "api", [0, 1],
                 timeout=300, tiers=("quick",),
                 bounds="N<=6 settings, batchsize 1..N+1 / num_batches 1..N+2 / neither, with and without a Runner "
-                       "farmer contributing constants and resources; api 0 grid, 1 case list")
+                       "farmer contributing constants and resources; for grids also after a re-sow by the same and by "
+                       "a re-created object; reports compared after reload by name and by constructor call; api 0 "
+                       "grid, 1 case list")
     + [make_cond(_G, "partition_api2", body_partition, _SIG,
                  ["1 <= n <= 3 and 0 <= mode <= 2 and 1 <= b <= 2 * n + 2 and shuf == 0 and 0 <= farmer <= 1",
-                  "j1 == 0 and j2 == 0 and j3 == 0 and j4 == 0 and j5 == 0"], fixed=dict(api=2),
+                  "j1 == 0 and j2 == 0 and j3 == 0 and j4 == 0 and j5 == 0", "not resow"], fixed=dict(api=2),
                  timeout=300, tiers=("quick",), bounds="cases x sub-grid, N=2n<=6, all batchings, farmer on/off")]
     + split_conds(_G, "partition_shuffled", body_partition, _SIG,
                   ["2 <= n <= 4 and 1 <= mode <= 2 and 1 <= b <= 3 and 1 <= shuf <= 2 and farmer == 0",
-                   _J, "j4 == 0 and j5 == 0"], "api", [0, 1], timeout=300,
+                   _J, "j4 == 0 and j5 == 0", "not resow"], "api", [0, 1], timeout=300,
                   bounds="shuffle=True/int, every permutation of N<=4 settings, batchsize/num_batches in 1..3")
     + [make_cond(_G, "partition_t_api%d_n%d" % (api, n), body_partition,
                  "mode:int b:int farmer:int cv:int",
                  ["0 <= mode <= 2 and 1 <= b <= %d and 0 <= farmer <= 1" % ((2 * n if api == 2 else n) + 2)],
-                 fixed=dict(api=api, n=n, shuf=0, j1=0, j2=0, j3=0, j4=0, j5=0), timeout=400, tiers=("thorough",),
+                 fixed=dict(api=api, n=n, shuf=0, j1=0, j2=0, j3=0, j4=0, j5=0, resow=False), timeout=400,
+                 tiers=("thorough",),
                  bounds="N=%d settings, all batchings, farmer on/off [api=%d]" % (2 * n if api == 2 else n, api))
        for api in range(3) for n in ((7, 8, 9, 10) if api != 2 else (4, 5))]
     + [make_cond(_G, "invalid", body_invalid, "mode:int b:int", ["1 <= mode <= 2 and -1 <= b <= 1"], timeout=60,
